@@ -260,10 +260,14 @@ func (p *Pipe) deposit(b []byte) {
 // Write implements io.Writer with the plan's write faults. All bookkeeping is
 // done under the pipe's lock, as a kernel socket would.
 func (p *Pipe) Write(b []byte) (int, error) {
-	t := p.wtask()
-	if t != nil {
+	if t := p.wtask(); t != nil {
 		t.Yield("pre-write:" + p.Name)
 	}
+	return p.writeNoPre(b)
+}
+
+func (p *Pipe) writeNoPre(b []byte) (int, error) {
+	t := p.wtask()
 	p.mu.Lock()
 	idx := p.St.Writes
 	p.St.Writes++
@@ -393,6 +397,10 @@ type Conn struct {
 	YieldOnDeadline bool
 	Deadlines       int
 	WDeadline       time.Time
+	// EnforceDeadline makes a write fail with a timeout error when the write
+	// deadline has passed by the time the write is scheduled.
+	EnforceDeadline bool
+	Timeouts        int
 	OnClose         func()
 }
 
@@ -404,7 +412,34 @@ func NewDuplex(s *kernel.Sched, tape *kernel.Tape, an, bn string) (a, b *Conn) {
 }
 
 func (c *Conn) Read(b []byte) (int, error) { return c.In.Read(b) }
-func (c *Conn) Write(b []byte) (int, error) { return c.Out.Write(b) }
+// ErrTimeout is what a write returns when the connection's write deadline has
+// passed (EnforceDeadline).
+type timeoutError struct{}
+
+func (timeoutError) Error() string   { return "simnet: i/o timeout" }
+func (timeoutError) Timeout() bool   { return true }
+func (timeoutError) Temporary() bool { return true }
+
+var ErrTimeout error = timeoutError{}
+
+func (c *Conn) Write(b []byte) (int, error) {
+	if c.EnforceDeadline {
+		// the write is "in flight" while the task is parked at the pre-write
+		// gate; if simulated time passed the deadline meanwhile, it times out
+		if t := c.Out.wtask(); t != nil {
+			t.Yield("pre-write:" + c.Out.Name)
+		}
+		c.Out.mu.Lock()
+		dl := c.WDeadline
+		c.Out.mu.Unlock()
+		if !dl.IsZero() && !time.Now().Before(dl) {
+			c.Timeouts++
+			return 0, ErrTimeout
+		}
+		return c.Out.writeNoPre(b)
+	}
+	return c.Out.Write(b)
+}
 
 func (c *Conn) Close() error {
 	if c.YieldOnClose {
